@@ -26,6 +26,7 @@ from .values import (
     to_string,
     js_typeof,
     normalize_number,
+    _JS_WHITESPACE,
 )
 from .errors import (
     JSError,
@@ -1976,13 +1977,13 @@ class VM:
             return s.upper()
 
         def trim(*args):
-            return s.strip()
+            return s.strip(_JS_WHITESPACE)
 
         def trimStart(*args):
-            return s.lstrip()
+            return s.lstrip(_JS_WHITESPACE)
 
         def trimEnd(*args):
-            return s.rstrip()
+            return s.rstrip(_JS_WHITESPACE)
 
         def concat(*args):
             result = s
